@@ -9,7 +9,7 @@
 From FunV Require Import Base.Tac Model.Wrappers Model.LaunchNet.
 Local Open Scope Z_scope.
 
-Inductive net := NOnce | NLimit | NLock | NSignal | NSend | NGroup.
+Inductive net := NOnce | NAdtOnce | NLimit | NLock | NSignal | NSend | NGroup.
 
 Inductive case :=
 | CSeq (id : Z) (f : fn) (calls : nat) (constructed : bool) (obs : list result) (log : list (Z * Z))
@@ -51,6 +51,7 @@ Definition check_case (c : case) : bool :=
   | CConc _ what param serialised evs =>
       match what with
       | NOnce => acc_once evs
+      | NAdtOnce => acc_adt (0 <? param) evs      (* param: 1 = the callers use Resolve, 0 = Do *)
       | NLimit => if serialised then acc_limit param evs else acc_climit param evs
       | NLock => acc_lock evs
       | NSignal => acc_signal evs
